@@ -350,6 +350,11 @@ pub struct Ceremony {
     pub twin: Twin,
     /// C11 etc.: index of the enumerated product cell (informational)
     pub cell: Option<u32>,
+    /// indices of prelude credentials whose store item does not convert into a passkey (a vault entry of
+    /// another kind, a record the store cannot decrypt): the store's item type is then a caller-defined one
+    /// with a fallible conversion. Honoured for one actor on the bare store making CTAP-level assertions.
+    #[serde(default)]
+    pub unconvertible: Vec<u32>,
 }
 
 // ---------------------------------------------------------------- hid world
